@@ -636,8 +636,8 @@ pub proof fn lemma_short_circuit(line: Seq<Status>, p: int)
     assert(has(line.take(p + 1), Status::PASS));
     assert(has(line, Status::PASS));
 }
-// ---- raw spec_report.rs
-// spec functions for C09, written from the statement
+// ---- raw spec_report_names.rs
+// shared by the `report` and `failed` groups (C09): rule names of a record list / of a not_compliant list
 pub open spec fn rule_status_of(e: EventRecord) -> Option<(Seq<char>, Status)> {
     match e.container {
         Some(RecordType::RuleCheck(ns)) => Some((ns.name@, ns.status)),
@@ -675,6 +675,13 @@ pub open spec fn failed_names(children: Seq<EventRecord>) -> Seq<Seq<char>>
     }
 }
 
+
+// every record of the list is a rule record (what eval_rules_file produces under a FileCheck node: U-file)
+pub open spec fn all_rules(s: Seq<EventRecord>) -> bool {
+    forall|i: int| 0 <= i < s.len() ==> rule_status_of(#[trigger] s[i]) is Some
+}
+// ---- raw spec_report.rs
+// spec functions for C09, written from the statement (rule_status_of, names_with, rule_entry_names, failed_names: spec_report_names.rs)
 pub open spec fn seq_has(s: Seq<Seq<char>>, n: Seq<char>) -> bool {
     exists|i: int| 0 <= i < s.len() && s[i] == n
 }
@@ -813,7 +820,7 @@ fn report_all_failed_clauses_for_rules<'value>(
     checks: &[EventRecord<'value>],
 ) -> (res: Vec<ClauseReport<'value>>)
     ensures
-        rule_entry_names(res@) == failed_names(checks@),
+        all_rules(checks@) ==> rule_entry_names(res@) == failed_names(checks@),
 { unimplemented!() }
 // ---- canary canary:callee:report_all_failed_clauses_for_rules
 fn report_all_failed_clauses_for_rules__canary<'value>(
@@ -839,6 +846,8 @@ pub fn simplified_json_from_root<'value>(
 ) -> (res: Result<FileReport<'value>>)
     requires
         root.container matches Some(RecordType::FileCheck(_)),
+        // the children of a FileCheck node are the rule records (eval_rules_file, U-file: one RuleCheck node per rule)
+        all_rules(root.children@),
     ensures
         res is Ok,
         root.container matches Some(RecordType::FileCheck(ns)) && res->Ok_0.status == ns.status && res->Ok_0.name@ == ns.name@,
@@ -887,6 +896,8 @@ pub fn simplified_json_from_root__canary<'value>(
 ) -> (res: Result<FileReport<'value>>)
     requires
         root.container matches Some(RecordType::FileCheck(_)),
+        // the children of a FileCheck node are the rule records (eval_rules_file, U-file: one RuleCheck node per rule)
+        all_rules(root.children@),
 { assert(false); vstd::pervasive::unreached() }
 // ---- fn guard/src/rules/eval_context.rs::combine
 impl<'value> FileReport<'value> {
